@@ -1,7 +1,6 @@
 package main
 
 import (
-	"os"
 	"fmt"
 	"go/types"
 	"strings"
@@ -11,7 +10,7 @@ import (
 
 func init() {
 	register("C02", propMeta{
-		Explanation: "E-OWN + E-LOCK + E-PROV + E-GUARD on the broker's rendezvous. O-1 channel privacy: every store to Snowflake.{offerChannel,answerChannel,id} and ProxyPoll.{offerChannel,id} targets a not-yet-published object of the storing function and channel fields only ever receive a fresh MakeChan. O-2 unique holder: the heaps, the id map and Snowflake.index are touched only under snowflakeLock (must-lockset, heap callbacks included) and the heap slices only inside the heap.Interface methods. O-3 same match end to end: in ClientOffers the snowflake returned by matchSnowflake is the base of the channel the offer is sent on, of the channel the answer is received from and of the id deregistered; the answer returned is the value received; the offer carries the request's SDP and the validated fingerprint. In Broker the per-poll goroutine forwards from the snowflake registered for *that* poll (request passed as a parameter, snowflake a per-iteration value built from request.id). ProxyAnswers sends the decoded answer on the answerChannel of the map entry looked up with the decoded id. ProxyPolls returns the offer received for the decoded session id and derives the relay URL from that offer's fingerprint. O-4: registration key = own id. O-5: one matching path for POST/legacy/AMP. O-6: matching is reachable only through the err == nil edges of hex decoding, fingerprint construction and bridge lookup. With private channels and a unique holder the only values that can travel between a client handler and a proxy handler are that client's offer and that proxy's answer; each obligation is also necessary (break it and some history cross-wires). Added after the second seeding round: O-6c every JSON record decoded inside a loop goes into a record created (or wholly overwritten) in that iteration; O-7/C14 the request body is read only through MaxBytesReader (C14's obligation, evaluated here for the broker handlers).",
+		Explanation: "E-OWN + E-LOCK + E-PROV + E-GUARD on the broker's rendezvous. O-1 channel privacy: every store to Snowflake.{offerChannel,answerChannel,id} and ProxyPoll.{offerChannel,id} targets a not-yet-published object of the storing function and channel fields only ever receive a fresh MakeChan. O-2 unique holder: the heaps, the id map and Snowflake.index are touched only under snowflakeLock (must-lockset, heap callbacks included) and the heap slices only inside the heap.Interface methods. O-3 same match end to end: in ClientOffers the snowflake returned by matchSnowflake is the base of the channel the offer is sent on, of the channel the answer is received from and of the id deregistered; the answer returned is the value received; the offer carries the request's SDP and the validated fingerprint. In Broker the per-poll goroutine forwards from the snowflake registered for *that* poll (request passed as a parameter, snowflake a per-iteration value built from request.id). ProxyAnswers sends the decoded answer on the answerChannel of the map entry looked up with the decoded id. ProxyPolls returns the offer received for the decoded session id and derives the relay URL from that offer's fingerprint. O-4: registration key = own id. O-5: one matching path for POST/legacy/AMP. O-6: matching is reachable only through the err == nil edges of hex decoding, fingerprint construction and bridge lookup. With private channels and a unique holder the only values that can travel between a client handler and a proxy handler are that client's offer and that proxy's answer; each obligation is also necessary (break it and some history cross-wires). Added after the second seeding round: O-6c every JSON record decoded inside a loop goes into a record created (or wholly overwritten) in that iteration; O-7/C14 the request body is read only through MaxBytesReader (C14's obligation, evaluated here for the broker handlers). Added after the third seeding round: O-9 (no package-level scratch state on the match path) covers method calls on package-level objects, for example a shared response buffer whose bytes are handed to the poll; O-6b GetBridgeInfo succeeds only with the entry looked up for its own parameter.",
 		NotDecided:  "byte-for-byte fidelity through JSON (C12), uniqueness of proxy-chosen session ids (outside the quantifier), liveness (C04), container/heap correctness.",
 		Assumptions: []string{"Go channel semantics", "lock identity is (type, field)", "container/heap calls only the heap.Interface methods of the value it is given"},
 	}, runC02)
@@ -271,12 +270,6 @@ func (c *Ctx) checkClientOffersProvenance() {
 	}{{hexd, "hex.DecodeString"}, {ffb, "FingerprintFromBytes"}, {gbi, "GetBridgeInfo"}} {
 		cut := errNilEdges(co, g.call, 1)
 		path := reachableWithout(co, X, cut)
-		if os.Getenv("SFDEBUG") != "" {
-			fmt.Println("DEBUG", g.what, "cut", len(cut), "call", g.call, "block", g.call.Block().Index)
-			for _, e := range cut {
-				fmt.Println("   edge", e.From.Index, e.Idx)
-			}
-		}
 		c.check(len(cut) > 0 && path == nil, rule6, "matchSnowflake only behind err == nil of "+g.what, p.instrPos(g.call), "", "matching is reachable although "+g.what+" failed", p.pathString(path)...)
 	}
 	// chain: GetBridgeInfo(FingerprintFromBytes(hex.DecodeString(req.Fingerprint)))
